@@ -483,4 +483,7 @@ MUTANTS = [
     M("tuner-writes-global-cap", _AD, "                self.current_max_repetition = new_max_repetition\n", "                self.current_max_repetition = new_max_repetition\n                Evaluator.shared_max_repetition = new_max_repetition\n", "R18-b"),
 
 ]
-TWINS = []
+TWINS = [
+    M("twin-default-operator-configured-in-init", "src/fandango/evolution/mutation.py", "class SimpleMutation(MutationOperator):\n    def mutate(\n",
+      "class SimpleMutation(MutationOperator):\n    def __init__(self) -> None:\n        self.default_budget = 50\n\n    def mutate(\n", None),
+]
